@@ -337,6 +337,7 @@ func (p *c09) Exec(t *testing.T, scAny any) Outcome {
 		base = sim.NewRand(sc.Seed).Bytes(sc.RandLen)
 		other = base
 	}
+	out.Digest = hashKey(string(base))
 	judge := func(c C09Case) {
 		data := applyMuts(base, other, c.Muts)
 		pr := parseOnce(data, c, ScratchDir)
